@@ -281,6 +281,14 @@ func afterFini(r *rig, res *result) {
 			res.fail("Resume() after Fini() used the closed tty again (%d more calls, e.g. %s %q)", len(r.tty.blocks)-nb, r.tty.blocks[nb].by, r.tty.blocks[nb].data)
 		}
 		_ = s.Suspend()
+		// ... and neither must a second Init (refused; the screen stays finished: PollEvent
+		// below still returns nil at once, ChannelEvents still closes its channel)
+		if err := s.Init(); err == nil {
+			res.fail("Init() after Fini() returned nil")
+		}
+		if left := verifrt.Alive(true); len(left) > 0 {
+			res.fail("Init() after Fini() started library goroutines again: %v", left)
+		}
 	}()
 	// PollEvent must not park: it may hand out events that were queued, then nil
 	spawn("poll-after-fini", func() {
